@@ -1,6 +1,8 @@
 package harness
 
 import (
+	"bytes"
+	"compress/gzip"
 	"encoding/json"
 	"fmt"
 	"io/ioutil"
@@ -48,6 +50,15 @@ func loadReplay(t *testing.T, v interface{}) bool {
 	b, err := ioutil.ReadFile(p)
 	if err != nil {
 		t.Fatalf("replay: %v", err)
+	}
+	if strings.HasSuffix(p, ".gz") { // saved cases of the replay tier are kept compressed
+		zr, err := gzip.NewReader(bytes.NewReader(b))
+		if err != nil {
+			t.Fatalf("replay: %v", err)
+		}
+		if b, err = ioutil.ReadAll(zr); err != nil {
+			t.Fatalf("replay: %v", err)
+		}
 	}
 	if err := json.Unmarshal(b, v); err != nil {
 		t.Fatalf("replay: %v", err)
